@@ -377,3 +377,170 @@ class RemoveExtraneousSlotAccess(Contract):
     def post(self, ctx, I, outcome, st):
         if outcome[0] != "return":
             ctx.oblige("never-raises", z3.BoolVal(False))
+
+
+# ---- collect_unoptimized_slots (compiler/scratchslots.py) -------------------------------------------------------------------------
+NR = z3.Int("numRoutines")
+STARTOF = z3.Function("startOfRoutine", I_, I_)
+KEYOF = z3.Function("keyOfRoutine", I_, I_)
+BLKARR = z3.Function("blocksFrom", I_, z3.ArraySort(I_, I_))
+NBLK = z3.Function("numBlocksFrom", I_, I_)
+SLOTARR = z3.Function("slotsOf", I_, z3.ArraySort(I_, I_))
+RESERVED = z3.Function("isReservedSlot", I_, z3.BoolSort())
+CU = "collect_unoptimized_slots"
+CUB = "collect_unoptimized_slots.<locals>.collectSlotsFromBlock"
+
+
+class RoutineMap:
+    """subroutineBlocks: a mapping routine -> start block with a symbolic number of entries"""
+
+    def pyvc_method(self, I, name, args, kwargs, node):
+        if name == "items" and not args:
+            return self
+        raise Unsupported(f"subroutineBlocks.{name}")
+
+    def pyvc_iter(self, I):
+        return NR, (lambda k: (SRef(KEYOF(k), object), SRef(STARTOF(k), self.cls)))
+
+
+class CollectUnoptimizedSlots(Contract):
+    """Every slot that some `int` op of some block of some routine mentions, every reserved slot mentioned anywhere, and every global slot
+    (as collectScratchSlots reports them) is in the returned skip set.  (The optimiser is only sound for slots outside this set; a larger
+    set is always safe, so only this direction is stated.)"""
+    target = "pyteal.compiler.scratchslots.collect_unoptimized_slots"
+
+    def __init__(self):
+        from pyteal.ir import TealBlock, TealOp, Op
+        from pyteal.ast import ScratchSlot
+        from pyteal.compiler import scratchslots as SS
+        self.TealBlock, self.TealOp, self.Op, self.ScratchSlot = TealBlock, TealOp, Op, ScratchSlot
+        self.codes = {m: i for i, m in enumerate(Op)}
+        self.raises_only = ()
+        self.callees = {
+            TealBlock.__dict__["Iterate"].__func__: self.c_iterate,
+            TealOp.__dict__["getSlots"]: self.c_slots,
+            SS.collectScratchSlots: self.c_global,
+            set: lambda I, args, kwargs: self.fresh_set(I.ctx),
+        }
+        self.fields = {(TealBlock, "ops"): self.f_ops, (TealOp, "op"): lambda ctx, ref: SRef(OPC(ref.term), Op),
+                       (ScratchSlot, "isReservedSlot"): lambda ctx, ref: RESERVED(ref.term)}
+        self.var_kinds = {(CU, "unoptimized_slots"): lambda ctx, v: v if isinstance(v, SSet) else self.fresh_set(ctx)}
+        self.loops = {(CU, 0): LoopSpec(inv=self.inv_routines, modifies=("unoptimized_slots",)),
+                      (CU, 1): LoopSpec(inv=self.inv_blocks, modifies=("unoptimized_slots",)),
+                      (CUB, 0): LoopSpec(inv=self.inv_ops, modifies=("unoptimized_slots",)),
+                      (CUB, 1): LoopSpec(inv=self.inv_slots, modifies=("unoptimized_slots",))}
+
+    def fresh_set(self, ctx):
+        s = SSet(REF(self.ScratchSlot), name="unoptimized_slots")
+        x = z3.Int(fresh_name("x0"))
+        ctx.assume(z3.ForAll([x], z3.Not(z3.Select(s.member, x))))
+        return s
+
+    def f_ops(self, ctx, ref):
+        l = stamp(SList(REF(self.TealOp), arr=OPSARR(ref.term), length=OPSLEN(ref.term), name="ops"))
+        l.frozen = True
+        ctx.assume(OPSLEN(ref.term) >= 0)
+        return l
+
+    def c_iterate(self, I, args, kwargs):
+        st = args[-1].term
+        I.ctx.assume(NBLK(st) >= 0)
+        l = stamp(SList(REF(self.TealBlock), arr=BLKARR(st), length=NBLK(st), name="blocks"))
+        l.frozen = True
+        return l
+
+    def c_slots(self, I, args, kwargs):
+        o = args[0].term
+        I.ctx.assume(NSL(o) >= 0)
+        l = stamp(SList(REF(self.ScratchSlot), arr=SLOTARR(o), length=NSL(o), name="slots"))
+        l.frozen = True
+        return l
+
+    def c_global(self, I, args, kwargs):
+        if not isinstance(args[0], RoutineMap):
+            raise Unsupported("collectScratchSlots is not called on the routine map")
+        g = SSet(REF(self.ScratchSlot), name="global_slots")
+        I.ctx.ghost["G"] = g
+        return (g, None)
+
+    def setup(self, ctx, I):
+        I.engine.eq_handlers[self.Op] = lambda I_, x, y: (OPC_of(x) == self.codes[y]) if not isinstance(y, SRef) else (x.term == y.term)
+        m = RoutineMap()
+        m.cls = self.TealBlock
+        ctx.assume(NR >= 0)
+        ctx.ghost.update(r=None, b=None, i=None, G=None)
+        return {"args": [m]}
+
+    # cond(r, b, i, j): the j-th slot of the i-th op of the b-th block of routine r must be exempt
+    def must(self, r, b, i, j):
+        blk = z3.Select(BLKARR(STARTOF(r)), b)
+        op = z3.Select(OPSARR(blk), i)
+        sl = z3.Select(SLOTARR(op), j)
+        return z3.Or(OPC(op) == self.codes[self.Op.int], RESERVED(sl)), sl, blk, op
+
+    def cov(self, S, r, b, i, j):
+        c, sl, _, _ = self.must(r, b, i, j)
+        return z3.Implies(c, S.contains(sl))
+
+    def q_routines(self, S, k, tag):
+        r, b, i, j = (z3.Int(f"{n}{tag}!") for n in "rbij")
+        blk = z3.Select(BLKARR(STARTOF(r)), b)
+        op = z3.Select(OPSARR(blk), i)
+        return z3.ForAll([r, b, i, j], z3.Implies(z3.And(r >= 0, r < k, b >= 0, b < NBLK(STARTOF(r)), i >= 0, i < OPSLEN(blk), j >= 0, j < NSL(op)), self.cov(S, r, b, i, j)))
+
+    def q_blocks(self, S, k, kb, tag):
+        b, i, j = (z3.Int(f"{n}{tag}!") for n in "bij")
+        blk = z3.Select(BLKARR(STARTOF(k)), b)
+        op = z3.Select(OPSARR(blk), i)
+        return z3.ForAll([b, i, j], z3.Implies(z3.And(b >= 0, b < kb, i >= 0, i < OPSLEN(blk), j >= 0, j < NSL(op)), self.cov(S, k, b, i, j)))
+
+    def q_ops(self, S, k, kb, ki, tag):
+        i, j = (z3.Int(f"{n}{tag}!") for n in "ij")
+        blk = z3.Select(BLKARR(STARTOF(k)), kb)
+        op = z3.Select(OPSARR(blk), i)
+        return z3.ForAll([i, j], z3.Implies(z3.And(i >= 0, i < ki, j >= 0, j < NSL(op)), self.cov(S, k, kb, i, j)))
+
+    def q_slots(self, S, k, kb, ki, kj, tag):
+        j = z3.Int(f"j{tag}!")
+        return z3.ForAll([j], z3.Implies(z3.And(j >= 0, j < kj), self.cov(S, k, kb, ki, j)))
+
+    def inv_routines(self, ctx, env, it):
+        if it.phase == "iter":
+            ctx.ghost["r"] = it.k
+        return [("all-earlier-routines-covered", self.q_routines(env["unoptimized_slots"], it.k, "a"))]
+
+    def inv_blocks(self, ctx, env, it):
+        k = ctx.ghost["r"]
+        if it.phase == "iter":
+            ctx.ghost["b"] = it.k
+        S = env["unoptimized_slots"]
+        return [("earlier-routines-stay-covered", self.q_routines(S, k, "b")), ("all-earlier-blocks-of-this-routine-covered", self.q_blocks(S, k, it.k, "b"))]
+
+    def inv_ops(self, ctx, env, it):
+        k, kb = ctx.ghost["r"], ctx.ghost["b"]
+        if it.phase == "iter":
+            ctx.ghost["i"] = it.k
+        S = env["unoptimized_slots"]
+        here = env["block"].term == z3.Select(BLKARR(STARTOF(k)), kb)
+        return [("the-block-is-the-one-being-iterated", here), ("earlier-routines-stay-covered", self.q_routines(S, k, "c")),
+                ("earlier-blocks-stay-covered", self.q_blocks(S, k, kb, "c")), ("all-earlier-ops-of-this-block-covered", self.q_ops(S, k, kb, it.k, "c"))]
+
+    def inv_slots(self, ctx, env, it):
+        k, kb, ki = ctx.ghost["r"], ctx.ghost["b"], ctx.ghost["i"]
+        S = env["unoptimized_slots"]
+        here = env["block"].term == z3.Select(BLKARR(STARTOF(k)), kb)
+        return [("the-block-is-the-one-being-iterated", here), ("earlier-routines-stay-covered", self.q_routines(S, k, "d")),
+                ("earlier-blocks-stay-covered", self.q_blocks(S, k, kb, "d")), ("earlier-ops-stay-covered", self.q_ops(S, k, kb, ki, "d")),
+                ("all-earlier-slots-of-this-op-covered", self.q_slots(S, k, kb, ki, it.k, "d"))]
+
+    def post(self, ctx, I, outcome, st):
+        if outcome[0] != "return":
+            ctx.oblige("never-raises", z3.BoolVal(False))
+            return
+        res = outcome[1]
+        if not isinstance(res, SSet):
+            raise Unsupported("result is not the set")
+        ctx.oblige("every-slot-of-an-int-op-and-every-reserved-slot-of-any-block-of-any-routine-is-exempt", self.q_routines(res, NR, "p"))
+        g = ctx.ghost.get("G")
+        x = z3.Int("xg!")
+        ctx.oblige("every-global-slot-is-exempt", z3.BoolVal(False) if g is None else z3.ForAll([x], z3.Implies(g.contains(x), res.contains(x))))
